@@ -1,1 +1,11 @@
 """Matchers for the 'finding' entries of known_findings.json: matcher(kind, detail, spec) -> bool."""
+
+
+def c18_scale_decreases(kind, detail, spec):
+  """F12: the effect-series report fails because the posterior scale is not monotone in t (first-differenced quantiles)."""
+  if kind != 'C18:crash:ValueError@__init__':
+    return False
+  if not isinstance(detail, dict) or detail.get('scale_decreases') is not True:
+    return False
+  msg = detail.get('exc', '')
+  return ('lower bound is not smaller than point estimate' in msg) or ('upper bound is not larger than point estimate' in msg)
